@@ -4,6 +4,10 @@ Correspondence (three levels, all against the Lean model Exetera/Model/Csv.lean)
   csv_kernel  exetera.core.csv_reader_speedup.fast_csv_reader               vs  Csv.fastCsvReader   (every output incl. both arrays)
   csv_driver  exetera.core.csv_reader_speedup.read_file_using_fast_csv_reader vs  Csv.readFile       (recording importers)
   csv_import  exetera.io.parsers.read_csv_with_schema_dict into an HDF5 frame  vs  Csv.readCsv        (destination fields)
+  csv_typed   the same entry point (or parsers.read_csv with a JSON schema) with schema-typed columns (categorical, leaky,
+              fixed, bool/int/float in three modes, datetime, date) and small chunk_row_size   vs  Csv.readCsv driving the
+              importer models of Model/Transforms.lean, one import_part per kernel call (main fields and _valid, _freetext,
+              _day, _set companions); oracle = checks/harness/c06.py's rendering of Spec/Transforms on the reference cells
 Oracle for the property itself: `parse_ref` below, the Python rendering of Spec/Csv.lean (RFC-4180 records; blanks that
 directly follow a separator or a line break are skipped), cross-checked at generation time against the cell grammar
 (`value`) and Python's csv module."""
@@ -15,7 +19,7 @@ import sys
 
 PROPERTY = "C05"
 LEVEL = "proof"
-LEAN_MODULES = ["Exetera.Props.C05"]
+LEAN_MODULES = ["Exetera.Props.C05", "Exetera.Props.C0506"]
 THEOREMS = []
 EXHAUSTIVE = {"quick": True, "thorough": True}
 CASE_TIMEOUT = 60
@@ -32,7 +36,11 @@ RULE = ("files are rendered from a cell grammar {empty, plain, leading/trailing 
         "(+-1) value budgets (budget 1, 2, 3) - bare, quoted, quoted with the doubled quote on the byte that fills the budget - in "
         "the first / middle / last of three records, 1-2 columns, smallest supported chunk_row_size, the next one and one window; "
         "files whose first windows are filled by records of empty cells (index buffer full) followed by a long cell (both buffers "
-        "grow in one run). The driver op also compares the full flag of every kernel call. Non-trivial = the model made more than one kernel call, "
+        "grow in one run). Typed columns (csv_typed): 240 (quick) / 6000 (thorough) seeded mixed schemas over 9 column kinds x 3 "
+        "validation modes, 1-4 columns, 0-90 rows, cells quoted / blank-led at random, chunk_row_size = smallest supported, +1, "
+        "+0..30 or one window, include/exclude lists, columns missing from the schema, schema given as importer-definition "
+        "dictionary or as JSON schema file, 80% of the cases with acceptable cells only; plus a seed-independent family in which "
+        "windows of empty records fill the index buffer before a long typed cell doubles its value budget. The driver op also compares the full flag of every kernel call. Non-trivial = the model made more than one kernel call, "
         "or the file has a quoted cell or a blank-led cell; distinct = distinct case line.")
 ASSUMPTIONS = [
     "supported regime of the property: every record (and the header line) fits in the byte window 2*chunk_row_size*columns; "
@@ -57,7 +65,15 @@ LEVEL_TEXT = ("Kernel-checked theorems, for all well-formed files of any size, a
               "(re-entry inside the held window with doubled buffers), yields exactly the reference records column by column within "
               "records + 2 + regrowthBound kernel calls (regrowthBound = sum of log2-many doublings per buffer) - so the result "
               "depends neither on chunk_row_size nor on how the buffers had to grow; the same for read_csv_with_schema_dict with the "
-              "budgets it computes; (3) include/exclude select exactly the named columns.")
+              "budgets it computes; (3) include/exclude select exactly the named columns; (4) composition with C06 "
+              "(Props/C0506.lean): the driver invariant and loop are proved for ANY family of importers that are append "
+              "homomorphisms over cell blocks (ImpHom); every importer kind of C06 is one (importer_append_homomorphism: indexed, "
+              "fixed, categorical, leaky categorical with its free-text offsets, bool/int/float in the three validation modes "
+              "with the validity flag, datetime/date with day and set companions), so for ANY schema of such kinds, every "
+              "chunk_row_size of the regime and every regrowth the public entry point returns, for every selected column, C06's "
+              "specification applied to the WHOLE column of cell texts (read_csv_typed_eq_spec: typed import = C06.spec o "
+              "C05.spec), every companion with exactly one entry per record (typed_companions_aligned), provided no selected "
+              "cell is rejected by its importer's validation mode.")
 LEVEL_NOTE = ("window_chunking_unobservable, regrowth_unobservable, chunk_size_unobservable and read_csv_eq_spec are proved at full "
               "strength (hypotheses: well-formed RFC-4180 table with a header line, chunk_row_size > 0, every line fits the byte window "
               "2*chunk_row_size*columns; for the driver-level theorems additionally every starting value budget >= 1, which "
@@ -68,7 +84,16 @@ LEVEL_NOTE = ("window_chunking_unobservable, regrowth_unobservable, chunk_size_u
               "additionally compares, per kernel call of the driver, the full flag returned by the real fast_csv_reader with the "
               "model's (regrowth path), and measures regrowth coverage (regrow-* tags). In the supported regime the index buffer can "
               "fill at most once per import (a window holds at most 2*chunk_row_size records). The model mirrors the code with fix "
-              "patches D26, NC05a, NC05b, D27 applied.")
+              "patches D26, NC05a, NC05b, D27 applied. Typed columns: read_csv_typed_eq_spec assumes C06's own hypotheses on the "
+              "importer definitions (distinct category keys; the number parser rejects blank text and converts str(invalid_value) "
+              "to invalid_value; parsers are data: modelled int() with a dtype range, or a finite text->value table for floats) "
+              "and that every selected cell is acceptable to its importer (cellOK, decided per cell). When a cell is rejected "
+              "only the importer-level half is proved (read_csv_typed_raises_partial: import_part on any block holding a "
+              "rejected cell raises); the lift to the driver loop is open - whether the import raises does not depend on chunk "
+              "boundaries, which of several rejected cells is reported does (first kernel call, then index_map order); the "
+              "correspondence compares the error class on every csv_typed case with a rejected cell. To state the composition "
+              "the kernel lemma now also exports that the reported entries stay strictly inside each column's value budget "
+              "(KernelRes.caps), which is what the leaky importer's free-text staging array of that size needs.")
 TECHNIQUE = "Lean 4 theorems over an executable model + differential correspondence with the real code"
 EXPLANATION = ""
 
@@ -320,6 +345,10 @@ def gen_cases(tier, rng):
     cases.extend(regrowth_cases(quick))
     # ---- 3. the public path: read_csv_with_schema_dict into HDF5 (indexed and fixed columns, include / exclude)
     cases.extend(import_cases(rng, 150 if quick else 3000))
+    # ---- 3b. the public path with schema-typed columns (C05 o C06): small chunk_row_size, typed columns cross many kernel
+    #          calls and regrowths; compared with the composed model and with both oracles
+    cases.extend(typed_regrowth_cases())
+    cases.extend(typed_cases(rng, 240 if quick else 6000))
     # ---- 4. kernel level: every byte string over a 5-letter alphabet, header or not, ample and tiny budgets
     alpha = [ord("x"), SEPB, Q, NLB, WSB]
     maxlen = 6 if quick else 7
@@ -467,6 +496,346 @@ def import_cases(rng, n):
 
 
 # ------------------------------------------------------------------------------------------------------------------
+# schema-typed columns through the public entry point (the composition C05 o C06)
+# ------------------------------------------------------------------------------------------------------------------
+TYPED_KINDS = ["indexed", "categorical", "leaky", "fixed", "bool", "int", "float", "datetime", "date"]
+
+
+def _c06():
+    from checks.harness import c06
+    return c06
+
+
+def typed_col(rng, kind, name, rows, clean, allow_unmatched=False):
+    """one column descriptor (the c06 column dict plus 'name') and its cell texts. clean: every cell is acceptable to the
+    importer in the column's validation mode (the hypothesis `cellOK` of read_csv_typed_eq_spec)"""
+    c6 = _c06()
+    col = {"kind": kind, "name": name}
+    if kind == "indexed":
+        cells = [bytes(rng.choice(b"abcxyz 01") for _ in range(rng.choice([0, 1, 2, 3, 5, 12, 40]))).lstrip(b" ") for _ in range(rows)]
+    elif kind in ("categorical", "leaky"):
+        d = {k: v for k, v in c6.rand_cats(rng, big=rng.random() < 0.15).items() if c6.csv_safe(k) and k == k.strip()}
+        if not d:
+            d[b"a"] = 1
+        keys = list(d)
+        cells = []
+        for _ in range(rows):
+            k = rng.choice(keys)
+            r = rng.random()
+            if r < 0.6 or (kind == "categorical" and not allow_unmatched):
+                cells.append(k)
+            elif r < 0.75:
+                cells.append(k + rng.choice([b"x", b"xyzxyzxyzxyz", b"q" * 33]))       # free text longer than the budget
+            elif r < 0.85:
+                cells.append(k[:-1])
+            else:
+                cells.append(bytes(rng.choice(b"abAB") for _ in range(rng.choice([1, 2, 7, 20]))))
+        cells = [c if c6.csv_safe(c) else b"zz" for c in cells]         # (cutting a key may cut a multi-byte character)
+        col.update(cats=c6.cats_of(d), vtype=rng.choice(["int8", "int8", "int16", "int32"]))
+    elif kind == "fixed":
+        cells = [bytes(rng.choice(b"abcz\xc3\xa9") for _ in range(rng.choice([0, 1, 2, 3, 6, 17]))) for _ in range(rows)]
+        cells = [c if c6.csv_safe(c) else b"zz" for c in cells]
+        col.update(strlen=rng.choice([1, 2, 4, 9]))
+    elif kind == "bool":
+        mode = rng.choice(["allow_empty", "relaxed", "relaxed", "strict"])
+        good = c6.ONES + c6.ZEROS + [b"TRUE", b"No", b"oFF", b"yes "]
+        pool = list(good)
+        if mode != "strict":
+            pool += [b"", b""]
+        if mode == "relaxed" or not clean:
+            pool += [b"x", b"tru", b"2"]
+        if not clean:
+            pool += [b""]
+        cells = [rng.choice(pool) for _ in range(rows)]
+        col.update(mode=mode, invalid=rng.choice([0, 1]))
+    elif kind == "int":
+        dt = rng.choice(["int8", "uint8", "int16", "uint16", "int32", "uint32", "int64"])
+        lo, hi = c6.INT_RANGES[dt]
+        mode = rng.choice(["allow_empty", "relaxed", "relaxed", "strict"])
+        cells = []
+        for _ in range(rows):
+            r = rng.random()
+            if r < 0.7 or (clean and mode == "strict"):
+                cells.append(str(rng.choice([lo, hi, 0, 7, rng.randrange(lo, hi + 1)])).encode() + rng.choice([b"", b"", b" "]))
+            elif r < 0.85 or (clean and mode == "allow_empty"):
+                cells.append(b"")
+            elif clean or r < 0.95:
+                cells.append(rng.choice([b"x", b"1.5", b"1e3", b"--1"]))       # relaxed: flagged; otherwise raises
+            else:
+                cells.append(str(rng.choice([lo - 1, hi + 1])).encode())         # out of range: raises in every mode
+        col.update(mode=mode, dtype=dt, invalid=rng.choice([0, "min", "max"]))
+    elif kind == "float":
+        mode = rng.choice(["allow_empty", "relaxed", "relaxed", "strict"])
+        pool = [b"1.5", b"-2", b"1e2", b"0.125", b"nan", b"12345.5", b"-0.25 "]
+        if mode != "strict" or not clean:
+            pool += [b"", b""]
+        if mode == "relaxed" or not clean:
+            pool += [b"x", b"1.5x"]
+        cells = [rng.choice(pool) for _ in range(rows)]
+        col.update(mode=mode, dtype=rng.choice(["float32", "float64"]), invalid=rng.choice([0, 160.5, -1]))
+    elif kind == "datetime":
+        cells = []
+        for _ in range(rows):
+            t = c6.rand_ts(rng).strip()
+            if clean and c6.ts_expect(t)[0] not in ("ok", "empty"):
+                t = rng.choice([b"", b"2020-06-15 19:45:39+01:00"])
+            cells.append(t if c6.csv_safe(t) else b"")
+        col.update(day=rng.random() < 0.6, flag=rng.random() < 0.6)
+    else:
+        cells = []
+        for _ in range(rows):
+            t = c6.rand_date(rng).strip()
+            if clean and c6.date_expect(t)[0] not in ("ok", "empty"):
+                t = rng.choice([b"", b"2021-03-04"])
+            cells.append(t)
+        col.update(day=rng.random() < 0.6, flag=rng.random() < 0.6)
+    return col, cells
+
+
+def typed_cases(rng, n, allow_unmatched=False):
+    """mixed typed schemas through the REAL read_csv_with_schema_dict (schema dictionary of importer definitions) or
+    parsers.read_csv (JSON schema file -> load_schema), with the smallest supported chunk_row_size values: every column
+    crosses many kernel calls; categorical budgets are a few bytes per row, so free text forces regrowth"""
+    out = []
+    for t in range(n):
+        ncols = rng.choice([1, 2, 2, 3, 3, 4])
+        rows = rng.choice([0, 1, 2, 3, 5, 9, 14]) if t % 12 else rng.randrange(20, 90)
+        clean = rng.random() < 0.8
+        cols, cellss = [], []
+        for ci in range(ncols):
+            kind = rng.choice(TYPED_KINDS)
+            col, cells = typed_col(rng, kind, NAMES[ci].decode(), rows, clean, allow_unmatched)
+            cols.append(col)
+            cellss.append(cells)
+        # render: a cell may be quoted (exact text), a bare cell may get blanks in front (the reader skips them)
+        grid = []
+        for r in range(rows):
+            row = []
+            for ci in range(ncols):
+                txt = cellss[ci][r]
+                x = rng.random()
+                if x < 0.12:
+                    row.append((True, txt))
+                elif x < 0.2 and not txt.startswith(b" "):
+                    row.append((False, b" " * rng.choice([1, 2]) + txt))
+                else:
+                    row.append((False, txt))
+            grid.append(row)
+        final_nl = rng.random() < 0.7 or (bool(grid) and render_row(grid[-1]) == b"\n")
+        header = NAMES[:ncols]
+        data = render(header, grid, final_nl)
+        selfcheck(header, grid, data)
+        names = [h.decode() for h in header]
+        lo = min_crs(data, ncols)
+        crs = rng.choice([lo, lo, lo + 1, lo + rng.randrange(0, 5), lo + rng.randrange(0, 30), 1 << 10])
+        include = exclude = None
+        r = rng.random()
+        if r < 0.15:
+            include = rng.sample(names, rng.randrange(1, ncols + 1))
+        elif r < 0.3:
+            exclude = rng.sample(names, rng.randrange(0, ncols))
+        # a column left out of the schema is imported as an indexed string
+        schema_names = [nm for nm, c in zip(names, cols) if c["kind"] != "indexed" or rng.random() < 0.7]
+        via = "json" if (t % 3 == 0 and include is None and exclude is None and len(schema_names) == ncols) else "dict"
+        out.append({"op": "csv_typed", "file": list(data), "names": names, "cols": cols, "schema_names": schema_names,
+                    "crs": crs, "include": include, "exclude": exclude, "via": via, "fuel": 64 + 6 * len(data), "_n": t,
+                    "_clean": clean})
+    return out
+
+
+def typed_regrowth_cases():
+    """seed independent: typed columns whose first windows are records of empty cells (the index buffer fills before the byte
+    window ends), followed by one long acceptable cell (the value budget of the typed column is doubled several times)"""
+    c6 = _c06()
+    tail = {"indexed": b"q" * 45, "leaky": b"freetext-" * 6, "fixed": b"abcdefghijkl", "bool": b"  TRUE", "int": b"  12345 ",
+            "float": b" 0.125", "datetime": b"2020-06-15 19:45:39.056000+01:00", "date": b"2021-03-04"}
+    extra = {"leaky": dict(cats=c6.cats_of({b"": 0, b"a": 1}), vtype="int8"), "fixed": dict(strlen=3),
+             "bool": dict(mode="relaxed", invalid=1), "int": dict(mode="allow_empty", dtype="int32", invalid="min"),
+             "float": dict(mode="relaxed", dtype="float64", invalid=160.5), "datetime": dict(day=True, flag=True),
+             "date": dict(day=True, flag=True), "indexed": {}}
+    out, n = [], 0
+    for kind in tail:
+        for ncols in (1, 2):
+            for crs in (1, 2, 3):
+                for lead in (1, 2):
+                    w = 2 * crs * ncols
+                    names = [h.decode() for h in NAMES[:ncols]]
+                    if len(",".join(names)) + 1 > w:
+                        continue
+                    cols = [dict(kind=kind, name=names[0], **extra[kind])] + [dict(kind="indexed", name=nm) for nm in names[1:]]
+                    rows = [[KINDS["empty"]] * ncols for _ in range(lead * 2 * crs + 1)]
+                    rows.append([(False, tail[kind])] + [KINDS["empty"]] * (ncols - 1))
+                    data = render(NAMES[:ncols], rows)
+                    use = crs if supported(data, crs, ncols) else min_crs(data, ncols)
+                    n += 1
+                    out.append({"op": "csv_typed", "file": list(data), "names": names, "cols": cols, "schema_names": names,
+                                "crs": use, "include": None, "exclude": None, "via": "dict" if n % 2 else "json",
+                                "fuel": 64 + 6 * len(data), "_n": 100000 + n, "_clean": True})
+    return out
+
+
+def typed_columns(case):
+    """the cell texts of every file column as the reference parser yields them (None: not a rectangular well-formed file)"""
+    ref = parse_ref(bytes(case["file"]))
+    ncols = len(case["names"])
+    if ref is None or not ref or any(len(r) != ncols for r in ref):
+        return None
+    return [[r[c] for r in ref[1:]] for c in range(ncols)]
+
+
+def typed_to_model(case):
+    c6 = _c06()
+    colcells = typed_columns(case) or [[] for _ in case["names"]]
+    schema = []
+    for ci, col in enumerate(case["cols"]):
+        if col["name"] not in case["schema_names"]:
+            continue
+        if col["kind"] == "indexed":
+            schema.append({"name": col["name"], "kind": "indexed"})
+            continue
+        m = c6.col_to_model(col, [[c6.hx(x) for x in colcells[ci]]])
+        m.pop("chunks", None)
+        m["name"] = col["name"]
+        schema.append(m)
+    return {"op": "csv_typed", "file": case["file"], "names": case["names"], "schema": schema, "crs": case["crs"],
+            "include": case.get("include"), "exclude": case.get("exclude"), "fuel": case["fuel"]}
+
+
+def to_model(case):
+    return typed_to_model(case) if case["op"] == "csv_typed" else case
+
+
+def typed_definition(e, col):
+    fi, c6 = e["fi"], _c06()
+    k = col["kind"]
+    if k == "indexed":
+        return fi.String()
+    if k in ("categorical", "leaky"):
+        return fi.Categorical({c6.unhx(c["k"]).decode(): c["v"] for c in col["cats"]}, col.get("vtype", "int8"), k == "leaky")
+    if k == "fixed":
+        return fi.String(fixed_length=col["strlen"])
+    if k == "bool":
+        return fi.Numeric("bool", col.get("invalid", 0), col["mode"])
+    if k in ("int", "float"):
+        return fi.Numeric(col["dtype"], col.get("invalid", 0), col["mode"])
+    if k == "datetime":
+        return fi.DateTime(col.get("day", False), col.get("flag", False))
+    return fi.Date(col.get("day", False), col.get("flag", False))
+
+
+def typed_schema_json(case):
+    import json
+    c6 = _c06()
+    doc = json.loads(c6.schema_json([c for c in case["cols"] if c["kind"] != "indexed"]))
+    for c in case["cols"]:
+        if c["kind"] == "indexed":
+            doc["schema"]["t"]["fields"][c["name"]] = {"field_type": "string"}
+    # load_schema keeps the order of the JSON object; the file order is what matters for the import anyway
+    return json.dumps(doc)
+
+
+def impl_typed(e, case):
+    from io import StringIO
+    c6 = _c06()
+    name = _write(e, case["file"])
+    try:
+        bio = io.BytesIO()
+        with e["Session"]() as s:
+            ds = s.open_dataset(bio, "w", "d")
+            df = ds.create_dataframe("t")
+            if case.get("via") == "json":
+                e["parsers"].read_csv(name, df, schema_file=StringIO(typed_schema_json(case)), chunk_row_size=case["crs"],
+                                      timestamp=0.0)
+            else:
+                schema = {c["name"]: typed_definition(e, c) for c in case["cols"] if c["name"] in case["schema_names"]}
+                e["parsers"].read_csv_with_schema_dict(name, df, schema, 0.0, case.get("include"), case.get("exclude"),
+                                                       case["crs"])
+            companions = set()
+            fields = {}
+            env6 = {"np": e["np"]}
+            for col in case["cols"]:
+                k = col["name"]
+                if k not in df:
+                    continue
+                if col["kind"] == "indexed":
+                    f = df[k]
+                    fields[k] = {"idx": [int(x) for x in f.indices[:]], "vals": [int(x) for x in f.values[:]]}
+                else:
+                    fields[k] = c6.read_col(env6, df, col, k)
+                companions |= {k + sfx for sfx in ("_valid", "_freetext", "_day", "_set")}
+            order = [k for k in df.keys() if k not in companions and k not in ("j_valid_from", "j_valid_to")]
+            return {"rows": int(len(df["j_valid_from"].data)), "fields": fields, "order": order}
+    finally:
+        os.unlink(name)
+
+
+def compare_typed(case, io_, mo):
+    c6 = _c06()
+    if "err" in io_ or "err" in mo:
+        a, b = c6.norm_err(io_.get("err", "<value>")), c6.norm_err(mo.get("err", "<value>"))
+        return None if a == b else f"impl err={a} ({io_.get('msg', '')[:100]}) model err={b}"
+    m = mo["ok"]
+    if io_["rows"] != m["rows"]:
+        return f"rows impl={io_['rows']} model={m['rows']}"
+    if io_["order"] != m["order"]:
+        return f"imported fields impl={io_['order']} model={m['order']}"
+    for col in case["cols"]:
+        k = col["name"]
+        if k not in io_["fields"]:
+            continue
+        if col["kind"] == "indexed":
+            if io_["fields"][k] != m["fields"][k]:
+                return f"field {k}: impl={str(io_['fields'][k])[:200]} model={str(m['fields'][k])[:200]}"
+            continue
+        why = c6.cmp_col(col, io_["fields"][k], {"ok": m["fields"][k]})
+        if why:
+            return f"column {k} ({col['kind']}): {why}"
+    return None
+
+
+def spec_typed(case, io_, skip=()):
+    """typed import = C06.spec o C05.spec: every selected column holds the C06 oracle's value of the reference parser's cells,
+    every companion has one entry per record"""
+    c6 = _c06()
+    data = bytes(case["file"])
+    names = case["names"]
+    colcells = typed_columns(case)
+    if colcells is None or not supported(data, case["crs"], len(names)):
+        return None
+    nrec = len(colcells[0]) if colcells else 0
+    inc, exc = case.get("include"), case.get("exclude")
+    want = [k for k in names if (inc is None or k in inc) and (exc is None or k not in exc)]
+    sel = [(c, colcells[names.index(c["name"])]) for c in case["cols"] if c["name"] in want]
+    if "err" in io_:
+        # a raise is what the property prescribes exactly when some selected cell must be rejected
+        for c, cells in sel:
+            if c["kind"] != "indexed" and c6.col_spec(c, cells, io_) is None:
+                return None
+        return f"raised {io_['err']} ({io_.get('msg', '')[:120]}) although every selected cell is acceptable to its importer"
+    if io_["order"] != want:
+        return f"imported fields {io_['order']} but include/exclude select {want}"
+    if io_["rows"] != nrec:
+        return f"{io_['rows']} rows (j_valid_from), the file has {nrec} records"
+    for c, cells in sel:
+        f = io_["fields"][c["name"]]
+        if c["name"] in skip:
+            continue
+        if c["kind"] == "indexed":
+            if cells_of(f) != cells or f["idx"][:1] != [0] or len(f["idx"]) != nrec + 1:
+                return f"field {c['name']}: got {cells_of(f)[:8]} expected {cells[:8]}"
+            continue
+        why = c6.col_spec(c, cells, f)
+        if why:
+            return f"column {c['name']} ({c['kind']}): {why}"
+        for key in ("valid", "set", "day"):
+            if key in f and len(f[key]) != nrec:
+                return f"column {c['name']}: companion {key} has {len(f[key])} rows, the file has {nrec} records"
+        if "ft_indices" in f and len(f["ft_indices"]) != nrec + 1:
+            return f"column {c['name']}: _freetext has {len(f['ft_indices'])} offsets for {nrec} records"
+    return None
+
+
+# ------------------------------------------------------------------------------------------------------------------
 # implementation (worker processes)
 # ------------------------------------------------------------------------------------------------------------------
 _S = {}
@@ -481,8 +850,9 @@ def _env():
         from exetera.core.session import Session
         from exetera.io import parsers
         from exetera.io.field_importers import String, Numeric
+        from exetera.io import field_importers as fi
         tmpdir = "/dev/shm" if os.path.isdir("/dev/shm") else "/tmp"
-        _S.update(np=np, m=crs_mod, Session=Session, parsers=parsers, String=String, Numeric=Numeric,
+        _S.update(np=np, m=crs_mod, Session=Session, parsers=parsers, String=String, Numeric=Numeric, fi=fi,
                   tmp=os.path.join(tmpdir, f"verif_c05_{os.getpid()}.csv"),
                   consts=[np.frombuffer(b, dtype="S1")[0][0] for b in (b'"', b",", b"\n", b" ")],
                   plain_jit=os.environ.get("USE_NUMBA", "").lower() != "false" and not os.environ.get("NUMBA_BOUNDSCHECK"))
@@ -584,6 +954,8 @@ def impl(case):
                 return {"rows": int(len(df["j_valid_from"].data)), "fields": fields, "order": [k for k in df.keys() if k not in skip]}
         finally:
             os.unlink(name)
+    if op == "csv_typed":
+        return impl_typed(e, case)
     raise ValueError("unknown op " + op)
 
 
@@ -596,6 +968,8 @@ def compare(case, io_, mo, mode):
         return None
     if "bad" in mo:
         return f"model driver rejected the case: {mo['bad']}"
+    if case["op"] == "csv_typed":
+        return compare_typed(case, io_, mo)
     if "err" in io_ or "err" in mo:
         a, b = io_.get("err"), mo.get("err")
         return None if a == b else f"impl err={a} ({io_.get('msg', '')[:80]}) model err={b}"
@@ -641,6 +1015,8 @@ def check_spec(case, io_, mode):
     op = case["op"]
     if op == "csv_kernel" or io_.get("skipped"):
         return None                      # the property is about imports; the kernel op only ties the model
+    if op == "csv_typed":
+        return spec_typed(case, io_)
     data = bytes(case["file"])
     ncols = case["ncols"] if op == "csv_driver" else len(case["names"])
     ref = parse_ref(data)
@@ -703,6 +1079,8 @@ def match_finding(case, io_, mode):
 def nontrivial(case, mo):
     if case["op"] == "csv_kernel":
         return bool(case["src"])
+    if case["op"] == "csv_typed":
+        return bool(mo and "ok" in mo and len(mo["ok"].get("flags", [])) > 1)
     if mo and "ok" in mo and len(mo["ok"].get("calls", [])) > 1:
         return True
     return Q in case["file"] or any(case["file"][i] in (SEPB, NLB) and case["file"][i + 1] == WSB
@@ -713,6 +1091,17 @@ def classify(case, mo):
     tags = [case["op"]]
     if mo and "err" in mo:
         tags.append("model-err:" + mo["err"])
+    if case["op"] == "csv_typed":
+        tags.extend(sorted({"typed:" + c["kind"] for c in case["cols"]}))
+        tags.append("typed-via-" + case.get("via", "dict"))
+        if mo and "ok" in mo:
+            fl = mo["ok"].get("flags", [])
+            tags.append("typed-calls=1" if len(fl) <= 1 else ("typed-calls=2-3" if len(fl) <= 3 else "typed-calls>=4"))
+            if 2 in fl:
+                tags.append("typed-regrow-vals")
+            if 1 in fl:
+                tags.append("typed-regrow-inds")
+        return tags
     if case["op"] == "csv_driver" and mo and "ok" in mo:
         calls = mo["ok"]["calls"]
         tags.append("calls=1" if len(calls) <= 1 else ("calls=2-3" if len(calls) <= 3 else "calls>=4"))
@@ -784,6 +1173,8 @@ def regrowth_tags(flags, calls):
 
 
 def select_for_mode(case, mode, tier):
+    if case["op"] == "csv_typed":
+        return case.get("_n", 0) % (9 if tier == "quick" else 5) == 0
     if case["op"] == "csv_kernel":
         if case.get("_jit_unsafe"):
             return len(case["src"]) <= (5 if tier == "quick" else 6)
